@@ -2773,6 +2773,18 @@ def remove_redundant_chain_casts(source: str) -> str:
             yield node, ast.Tuple(elts=elts)
 
 
+def _until_target_is_read(first, matches: Sequence, *fields: str) -> Sequence:
+    """The leading matches that do not read the variable that is being assigned"""
+    target_template = ast.Name(id=first.target.id)
+    return list(
+        itertools.takewhile(
+            lambda m: not any(
+                True for field in fields for _ in core.walk(getattr(m, field), target_template)
+            ),
+            matches,
+    ))
+
+
 @processing.fix
 def replace_dict_assign_with_dict_literal(source: str) -> str:
     root = core.parse(source)
@@ -2794,6 +2806,10 @@ def replace_dict_assign_with_dict_literal(source: str) -> str:
     for transaction, (first, *matches) in enumerate(
         core.walk_sequence(root, *template, expand_last=True)
     ):
+        matches = _until_target_is_read(first, matches, "key", "value")
+        if not matches:
+            continue
+
         replacement = ast.Assign(
             targets=[first.target],
             value=ast.Dict(
@@ -2820,13 +2836,18 @@ def replace_dict_update_with_dict_literal(source: str) -> str:
         ast.Assign(targets=[target_template], value=value_template),
         ast.Expr(
             value=ast.Call(
-                func=ast.Attribute(value=target_template),
+                func=ast.Attribute(value=target_template, attr="update"),
                 args=[core.Wildcard("other", object, common=False)],
+                keywords=[],
     )),]
 
     for transaction, (first, *matches) in enumerate(
         core.walk_sequence(root, *template, expand_last=True)
     ):
+        matches = _until_target_is_read(first, matches, "other")
+        if not matches:
+            continue
+
         replacement = ast.Assign(
             targets=[first.target],
             value=ast.Dict(
@@ -2858,6 +2879,10 @@ def replace_dictcomp_assign_with_dict_literal(source: str) -> str:
     for transaction, (first, *matches) in enumerate(
         core.walk_sequence(root, *template, expand_last=True)
     ):
+        matches = _until_target_is_read(first, matches, "key", "value")
+        if not matches:
+            continue
+
         replacement = ast.Assign(
             targets=[first.target],
             value=ast.Dict(
@@ -2880,13 +2905,18 @@ def replace_dictcomp_update_with_dict_literal(source: str) -> str:
         ast.Assign(targets=[target_template], value=ast.DictComp),
         ast.Expr(
             value=ast.Call(
-                func=ast.Attribute(value=target_template),
+                func=ast.Attribute(value=target_template, attr="update"),
                 args=[core.Wildcard("other", object, common=False)],
+                keywords=[],
     )),]
 
     for transaction, (first, *matches) in enumerate(
         core.walk_sequence(root, *template, expand_last=True)
     ):
+        matches = _until_target_is_read(first, matches, "other")
+        if not matches:
+            continue
+
         replacement = ast.Assign(
             targets=[first.target],
             value=ast.Dict(
